@@ -74,7 +74,7 @@ class FetcherStream(Stream):
                 probs.append(f"error path: fetch_next call #{i} raised {r[1]}"
                              + ("" if both_failed else " although one of the two streams never failed"))
                 break
-        if case["kind"] != "grid":
+        if case["kind"] not in ("grid", "prim_gaps", "fb_gaps"):
             return [{"what": p, "finding": None} for p in probs]
         prim = case["prim"]["items"]
         fbm = {it[0]: it[1] for it in case["fb"]["items"]}
